@@ -106,6 +106,18 @@ def run(prog, chk):
     mk = [n for (n, c) in lf.fl.nodes_with_call(name="pipe.make_or_pipe")]
     ok = ok and len(mk) == 1
     chk.ob("R1.halves-installed", "Channel.fileno", ok, fn.loc, "p1 -> in_buffer, p2 -> in_stderr_buffer, created once under Channel.lock")
+    # created once: the test "is there a pipe already?" and the creation are one critical section - the creating write is
+    # dominated by a test of self._pipe itself (not of a copy read earlier) made while Channel.lock is held
+    wr = lf.fl.nodes(lambda n: n.kind == "stmt" and isinstance(n.ast, ast.Assign) and any(unparse(t_) == "self._pipe" for t_ in n.ast.targets))
+
+    def _tests_pipe(t_, op):
+        return isinstance(t_, ast.Compare) and len(t_.ops) == 1 and isinstance(t_.ops[0], op) and unparse(t_.left) == "self._pipe" and \
+            isinstance(t_.comparators[0], ast.Constant) and t_.comparators[0].value is None
+    locked = set(n.id for n in lf.fl.nodes(lambda n: n.kind == "cond" and (_tests_pipe(n.ast, ast.Is) or _tests_pipe(n.ast, ast.IsNot))) if lf.holds(n, "self.lock"))
+    ge = lambda s_, lab, d_: s_ in locked and ((lab == "T" and _tests_pipe(lf.fl.cfg.nodes[s_].ast, ast.Is)) or (lab == "F" and _tests_pipe(lf.fl.cfg.nodes[s_].ast, ast.IsNot)))
+    okc = len(wr) == 1 and lf.holds(wr[0], "self.lock") and bool(locked) and lf.fl.dominated(wr, guard_edge=ge)
+    chk.ob("R1.pipe-created-once", "Channel.fileno", okc, fn.loc,
+           "self._pipe is assigned under Channel.lock and only after testing, under that same lock, that it is still None (%d locked test(s))" % len(locked))
 
     # R2 / R3 buffer-side event discipline --------------------------------------------------------
     se = prog.func("BufferedPipe.set_event")
